@@ -650,6 +650,9 @@ func newTarget(c caseIn) (*target, error) {
 
 const controlPath = "/__c09_control"
 
+// persistedFailures counts the cases of this run whose shots kept failing below HTTP while the control probe reached the target
+var persistedFailures atomic.Int64
+
 // control answers: can this target be reached right now from this process, without any pandora code? A raw TCP dial, the
 // CONNECT exchange when the target is a tunnel end, a TLS handshake when it speaks TLS, one HTTP/1.1 request. When a shot of
 // the case failed below HTTP although the scheme fits and the control fails as well, the trouble is the machine's (a loaded
@@ -775,6 +778,9 @@ func runCase(input string) string {
 	if perr == nil && (c.gap > 0 || c.delay > 0) {
 		attempts = 3 // the cases that pause are slow already
 	}
+	if persistedFailures.Load() > 20 {
+		attempts = 2 // the tree is broken beyond doubt: do not spend minutes on confirming every case five times
+	}
 	for attempt := 0; attempt < attempts; attempt++ {
 		agg := &errAggregator{}
 		if perr == nil && c.rht != "-" {
@@ -801,6 +807,7 @@ func runCase(input string) string {
 			if env != "" {
 				return "ENV " + env
 			}
+			persistedFailures.Add(1)
 			return obs // it persists while the control probe reaches the target: not the machine
 		}
 		time.Sleep(time.Duration(200<<attempt) * time.Millisecond)
